@@ -11,8 +11,12 @@
                  (the former TypeError of the reuse branch)
   maxnorm        when max_norm > 0 and |alpha @ J| > max_norm the weights are alpha / |alpha @ J| * max_norm
                  (so the returned vector has norm max_norm by homogeneity of the norm [T])
+  solve          _solve_optimization against the contract forward's verification applies at its call site (loop invariant:
+                 alpha_t is an ndarray of n_tasks entries and never None; frame: prvs_alpha only; result is the stored object)
+  outer          NashMTL.__init__ / NashMTL.reset: parameters passed through unpermuted, reset reaches the weighting
 _solve_optimization and _init_optim_problem are abstracted by their contracts when forward is verified (they return /
-store solver objects; the ECOS iterations themselves are [T])."""
+store solver objects; the ECOS iterations themselves are [T]); the former contract is itself proved (solve), the latter is
+executed for n_tasks = 2 (dead_fields)."""
 from __future__ import annotations
 
 import ast
@@ -81,7 +85,9 @@ def forward_check(H):
             if not (isinstance(gtg, ATen) and gtg.kind == "numpy"):
                 interp.cx.oblige("C19.kinds.solve_gets_ndarray", False)
             n = self.attrs["n_tasks"]
-            res = ATen(interp.cx.fresh_const("alpha_solved", ArrS), [n], P.F64, "numpy")
+            # exactly the contract proved for the real function by C19.solve.*: an ndarray of n_tasks entries (of SOME dtype:
+            # the float32 initial weights or a float64 solution), left in self.prvs_alpha
+            res = ATen(interp.cx.fresh_const("alpha_solved", ArrS), [n], interp.cx.fresh_const("alpha_solved_dt", V.DtypeS), "numpy")
             interp.setattr(self, "prvs_alpha", res)
             return res
 
@@ -170,11 +176,131 @@ def dead_fields_check(H):
         cx.oblige("C19.dead.fields.no_stale_solver_field_is_read", len(stale_reads) == 0)
         for f in SOLVER_FIELDS:
             cx.oblige(f"C19.dead.fields.{f}_rewritten", w.attrs.get(f) is not marks.get(f, object()))
+        # what _init_optim_problem builds is what C19.solve.* takes as the precondition of _solve_optimization
+        from tjv.pyvc.cvx import CvxLeaf, CvxProblem, _leaves_of
+        want = {"alpha_param": ("cpvar", [n]), "prvs_alpha_param": ("cpparam", [n]), "G_param": ("cpparam", [n, n]),
+                "normalization_factor_param": ("cpparam", [1])}
+        for f, (lk, shp) in want.items():
+            v = w.attrs.get(f)
+            cx.oblige(f"C19.dead.init_builds.{f}", isinstance(v, CvxLeaf) and v.leaf_kind == lk
+                      and len(v.shape_l) == len(shp) and all(z3.is_true(z3.simplify(lift(a) == lift(b))) for a, b in zip(v.shape_l, shp)))
+        pr = w.attrs.get("prob")
+        cx.oblige("C19.dead.init_builds.prob", isinstance(pr, CvxProblem) and all(any(l is w.attrs.get(f) for l in _leaves_of(pr)) for f in want))
+    H.explore(body)
+
+
+def solve_loop():
+    """_solve_optimization, loop 0.  Invariant: alpha_t is an ndarray of n_tasks entries (never None); the loop writes only
+    alpha_t and the .value of alpha_param / prvs_alpha_param."""
+    def _unwrap(v):
+        return v.value if isinstance(v, V.Opt) else v
+
+    def havoc(cx, frame, i):
+        self = frame.vars["self"]
+        n = self.attrs["n_tasks"]
+        frame.vars["alpha_t"] = ATen(cx.fresh_const("alpha_t", ArrS), [n], cx.fresh_const("alpha_dt", V.DtypeS), "numpy")
+        for f in ("alpha_param", "prvs_alpha_param"):
+            self.attrs[f]._value = ATen(cx.fresh_const(f + "_value", ArrS), [n], cx.fresh_const(f + "_dt", V.DtypeS), "numpy")
+
+    def inv(cx, frame, i):
+        self = frame.vars["self"]
+        n = self.attrs["n_tasks"]
+        a = frame.vars["alpha_t"]
+        not_none = z3.Not(a.is_none) if isinstance(a, V.Opt) else z3.BoolVal(a is not None)
+        a = _unwrap(a)
+        ok = isinstance(a, ATen) and a.kind == "numpy" and len(a.shape_l) == 1
+        if "__alpha_entry__" not in frame.vars:
+            frame.vars["__alpha_entry__"] = a.term if ok else None   # the first evaluation is the one on loop entry
+        a0 = frame.vars["__alpha_entry__"]
+        return [("alpha_t_is_never_None", not_none), ("alpha_t_is_an_ndarray", z3.BoolVal(bool(ok))),
+                ("alpha_t_has_n_tasks_entries", (lift(a.shape_l[0]) == lift(n)) if ok else z3.BoolVal(False)),
+                ("before_the_first_iteration_alpha_t_is_the_stored_one", z3.Implies(lift(i) == 0, a.term == a0) if ok and a0 is not None else z3.BoolVal(False))]
+    from tjv.pyvc.interp import LoopSpec
+    return LoopSpec(havoc, inv, has_break=True)
+
+
+SOLVE_LOOPS = {(f"{NW}._solve_optimization", 0): solve_loop()}
+
+
+def solve_check(H):
+    """_solve_optimization(gtg) against the contract that forward's verification assumes for it: it returns the object it leaves
+    in self.prvs_alpha, an ndarray of n_tasks entries; of the weighting's own fields it writes prvs_alpha only; G_param /
+    normalization_factor_param receive gtg / the stored normalisation factor; with optim_niter = 0 the stored weights are returned
+    untouched.  Precondition: the solver fields are the cvxpy objects _init_optim_problem builds (their kinds are obligations of
+    C19.dead.*).  cp.Problem.solve may raise, and may leave .value = None [T]."""
+    from tjv.pyvc.cvx import _LEAVES, CvxLeaf, CvxProblem
+
+    def body(cx):
+        cx.ghost["cvx_value_may_be_none"] = True
+        it = H.interp(cx, loop_specs=SOLVE_LOOPS)
+        w, n, k, niter, mx = mk_weighting(cx, it, H)
+        leaves = {"alpha_param": CvxLeaf(cx, "cpvar", [n]), "prvs_alpha_param": CvxLeaf(cx, "cpparam", [n]),
+                  "G_param": CvxLeaf(cx, "cpparam", [n, n]), "normalization_factor_param": CvxLeaf(cx, "cpparam", [1])}
+        for f, v in leaves.items():
+            w.attrs[f] = v
+        prob = CvxProblem(cx, ATen(cx.fresh_const("objective", ArrS), [], P.F64, "cvxpy"), [])
+        _LEAVES[id(prob)] = list(leaves.values())
+        w.attrs["prob"] = prob
+        stored = ATen(z3.Const("prvs_alpha", ArrS), [n], z3.Const("prvs_dtype", V.DtypeS), "numpy")
+        w.attrs["prvs_alpha"] = stored
+        nf = w.attrs["normalization_factor"]
+        gtg = ATen(z3.Const("gtg", ArrS), [n, n], P.F64, "numpy")
+        n_ev = len(cx.events)
+        kind, out = call_catch(lambda: it.call(it.getattr(w, "_solve_optimization"), [gtg]))
+        cx.oblige("C19.solve.never_raises", kind == "return", where=str(getattr(out, "where", "")))
+        if kind != "return":
+            return
+        stores = sorted({e[1]["name"] for e in cx.events[n_ev:] if e[0] == "setattr" and e[1]["obj"] is w})
+        cx.oblige("C19.solve.frame.writes_only_prvs_alpha", all(x == "prvs_alpha" for x in stores))
+        cx.oblige("C19.solve.returns_the_stored_weights", out is w.attrs["prvs_alpha"])
+        r = out.value if isinstance(out, V.Opt) else out
+        cx.oblige("C19.solve.result_is_never_None", z3.Not(out.is_none) if isinstance(out, V.Opt) else out is not None)
+        ok = isinstance(r, ATen) and r.kind == "numpy" and len(r.shape_l) == 1
+        cx.oblige("C19.solve.result_is_an_ndarray_of_n_tasks", (lift(r.shape_l[0]) == n) if ok else False)
+        cx.oblige("C19.solve.G_param_receives_gtg", leaves["G_param"]._value is gtg)
+        cx.oblige("C19.solve.normalization_param_receives_the_factor", leaves["normalization_factor_param"]._value is nf)
+        n_solves = len([e for e in cx.events[n_ev:] if e[0] == "cvx_solve"])
+        cx.oblige("C19.solve.no_iteration_means_stored_weights", z3.Implies(niter == 0, r.term == stored.term) if ok else False)
+        cx.oblige("C19.solve.no_iteration_means_no_solver_call", z3.Implies(niter == 0, z3.BoolVal(n_solves == 0)) if n_solves else True)
+    H.explore(body, max_paths=3000)
+
+
+def outer_check(H):
+    """NashMTL(n_tasks, max_norm, update_weights_every, optim_niter): its weighting is a _NashMTLWeighting configured with exactly
+    these parameters (no permutation / default substituted), and NashMTL.reset() resets THAT weighting, once."""
+    def body(cx):
+        resets = []
+
+        def reset_contract(interp, args, kwargs):
+            resets.append(args[0])
+            return None
+        it = H.interp(cx, overrides={f"{NW}.reset": reset_contract})
+        n, k, niter, mx = z3.Int("n_tasks"), z3.Int("update_weights_every"), z3.Int("optim_niter"), z3.Real("max_norm")
+        cx.assume(z3.And(n >= 1, k >= 1, niter >= 0))
+        style = cx.choose(2, "argument_style")
+        if style == 0:
+            a = it.call(H.repo.get(f"{AGG}.nash_mtl.NashMTL"), [], {"n_tasks": n, "max_norm": mx, "update_weights_every": k, "optim_niter": niter})
+        else:
+            a = it.call(H.repo.get(f"{AGG}.nash_mtl.NashMTL"), [n, mx, k, niter], {})
+        w = a.attrs.get("weighting")
+        ok = isinstance(w, SymObj) and w.cls.name == "_NashMTLWeighting"
+        cx.oblige("C19.outer.weighting_is_a_nash_weighting", ok)
+        if not ok:
+            return
+        for f, v in (("n_tasks", n), ("max_norm", mx), ("update_weights_every", k), ("optim_niter", niter)):
+            got = w.attrs.get(f)
+            cx.oblige(f"C19.outer.parameter.{f}", (lift(got) == v) if got is not None and not isinstance(got, (ATen, SymObj)) else False)
+        cx.oblige("C19.outer.fresh_state.step", as_real(w.attrs["step"]) == 0)
+        it.call(it.getattr(a, "reset"), [])
+        cx.oblige("C19.outer.reset_resets_the_weighting_once", len(resets) == 1 and resets[0] is w)
+        cx.oblige("C19.outer.reset_keeps_the_weighting_object", a.attrs.get("weighting") is w)
     H.explore(body)
 
 
 CHECKS = [
-    Check("reset", [f"{NW}.__init__", f"{NW}.reset", f"{AGG}.nash_mtl.NashMTL.reset"], reset_check, replay_keys=["C19.reset"]),
+    Check("reset", [f"{NW}.__init__", f"{NW}.reset"], reset_check, replay_keys=["C19.reset"]),
+    Check("solve", [f"{NW}._solve_optimization", f"{NW}._stop_criteria"], solve_check, replay_keys=["C19."]),
+    Check("outer", [f"{AGG}.nash_mtl.NashMTL.__init__", f"{AGG}.nash_mtl.NashMTL.reset"], outer_check, replay_keys=["C19.reset"]),
     Check("forward", [f"{NW}.forward"], forward_check, replay_keys=["C19.reuse", "C19.schedule", "C19.maxnorm"]),
     Check("dead_fields", [f"{NW}.forward", f"{NW}._init_optim_problem", f"{NW}._calc_phi_alpha_linearization"], dead_fields_check,
           replay_keys=["C19.reset"]),
